@@ -1,5 +1,5 @@
 """FIX Protocol Unit Tester."""
-from math import isnan, nan
+from math import isfinite, isnan, nan
 from unittest.mock import AsyncMock, MagicMock
 
 from asyncfix import FIXMessage, FMsg, FTag
@@ -7,7 +7,7 @@ from asyncfix.connection import AsyncFIXConnection, ConnectionState
 from asyncfix.journaler import Journaler
 from asyncfix.protocol import FIXProtocol44, FIXSchema
 from asyncfix.protocol.common import FExecType, FOrdStatus
-from asyncfix.protocol.order_single import FIXNewOrderSingle
+from asyncfix.protocol.order_single import FIXNewOrderSingle, fix_float
 
 
 class FIXTester:
@@ -367,7 +367,7 @@ class FIXTester:
         else:
             assert cum_qty <= order.qty
             assert cum_qty >= 0
-        m[FTag.CumQty] = cum_qty
+        m[FTag.CumQty] = fix_float(cum_qty)
 
         if isnan(leaves_qty):
             leaves_qty = order.leaves_qty
@@ -375,7 +375,7 @@ class FIXTester:
             assert leaves_qty >= 0
             assert leaves_qty <= order_qty
 
-        m[FTag.LeavesQty] = leaves_qty
+        m[FTag.LeavesQty] = fix_float(leaves_qty)
         assert (
             cum_qty + leaves_qty <= order_qty
         ), f"cum_qty[{cum_qty}] + leaves_qty[{leaves_qty}] <= order_qty[{order_qty}]"
@@ -387,7 +387,7 @@ class FIXTester:
                 exec_type == FExecType.TRADE
             ), "Only applicable to exec_type=F (trade)"
             assert last_qty > 0
-            m[FTag.LastQty] = last_qty
+            m[FTag.LastQty] = fix_float(last_qty)
             assert (
                 round(last_qty - (cum_qty - order.cum_qty), 3) == 0
             ), "Probably incorrect Trade qty"
@@ -403,10 +403,14 @@ class FIXTester:
         else:
             price = order.price
 
+        assert all(
+            isfinite(x) for x in (cum_qty, leaves_qty, order_qty, price, avg_price)
+        ), "FIX float fields must be finite numbers"
+
         order.set_instrument(m)
 
         order.set_price_qty(m, price, order_qty)
-        m[FTag.AvgPx] = avg_price
+        m[FTag.AvgPx] = fix_float(avg_price)
 
         order.set_account(m)
 
